@@ -6,6 +6,8 @@
   *generated* replace chain and decoder class (ICal.Gen, regenerated from /repo each run).
 -/
 import ICal.Lemmas.Text
+import ICal.Props.C05
+import ICal.Props.C06
 namespace ICal.C07
 
 /-- The encoder is "normalise, then escape each character on its own". -/
@@ -54,6 +56,33 @@ theorem categories_roundtrip (xs : List Str) (hne : xs ≠ []) :
 theorem categories_arity (xs : List Str) (hne : xs ≠ []) :
     (catsFromIcal (catsToIcal xs)).length = xs.length := by
   rw [categories_roundtrip xs hne]; simp
+
+/-- Property route: a TEXT value written as a property line (`Event.add(name, s)` then
+    `to_ical`), folded, unfolded and read back through `raw_value()` and `vText.from_ical` - what
+    `Component.from_ical` does for TEXT-typed properties - is `norm s`, for EVERY string `s` and
+    every parameter map of the domain (no escape-hazard hypothesis: the raw value route does not
+    pass through the placeholder pass). -/
+theorem text_property_route (n : Str) (p : Params) (s : Str) (sorted : Bool)
+    (hn : validToken n = true) (hp : ParamDomain p) :
+    ∃ l, fromParts n p (vTextToIcal s) sorted = .ok l ∧ unfold (foldline l) = l ∧
+      vTextFromIcal (rawValue l) = norm s := by
+  obtain ⟨l, hl⟩ := C05.fromParts_succeeds n p (vTextToIcal s) sorted hn hp (escape_no_linebreak s)
+  refine ⟨l, hl, ?_, ?_⟩
+  · apply C06.unfold_fold
+    -- the line was accepted by `mkLine`, hence holds no LF
+    intro hlf
+    have hm : ∀ t, mkLine t = .ok l → LF ∉ l := by
+      intro t ht
+      unfold mkLine at ht
+      split at ht
+      · cases ht
+      · next hc =>
+        injection ht with e; subst e
+        intro hmem; apply hc; simpa using hmem
+    unfold fromParts at hl
+    split at hl <;> exact hm _ hl hlf
+  · rw [C05.rawValue_fromParts n p (vTextToIcal s) sorted hn hp l hl]
+    exact text_roundtrip s
 
 /-! Non-vacuity: the statements apply to strings made of every critical character. -/
 example : vTextFromIcal (vTextToIcal ['\\', 'n', ';', ',', ':', '"', '%', '2', 'C', '\r', '\n', '\\', 'N', ' ', 'a'])
